@@ -15,7 +15,8 @@ PRIOS = [1, 3, 5, 5, 5, 7, 10]
 EXCS = ["RuntimeError", "ValueError", "ZeroDivisionError", "KeyError",
         "DSOLError", "AssertionError"]
 BAD_KINDS = ["past_abs", "neg_rel", "nan_abs", "nan_rel", "str_abs",
-             "none_abs", "str_rel", "past_event"]
+             "none_abs", "str_rel", "past_event", "tiny_neg_rel", "tiny_neg_rel",
+             "tiny_past_abs"]
 
 
 def gen_program(rng, clock=None, n_events=None, p_cancel=0.12, p_bad=0.0,
